@@ -290,6 +290,12 @@ func (x *Exec) zero(t types.Type) Term {
 		r.GoT = t
 		return r
 	}
+	if _, isStruct := t.Underlying().(*types.Struct); isStruct && x.W.IsSeq(so) {
+		// bytes.Buffer / strings.Builder: empty byte sequence
+		r = x.W.MkSeq(so, ConstArray(ArraySort(SInt, SInt), IntLit(0)), IntLit(0), IntLit(0))
+		r.GoT = t
+		return r
+	}
 	switch u := t.Underlying().(type) {
 	case *types.Basic:
 		switch {
